@@ -22,6 +22,16 @@ def run(ctx):
         ev = json.loads(x["lines"][x["event"] - 1]) if 0 < x["event"] <= len(x["lines"]) else {}
         core.report(ctx, {"check": "Mon_JobQueue", "invariant": x["invariant"], "op": ev.get("ev", "?")},
                     {"events": [json.loads(l) for l in x["lines"]], "failing_event": x["event"]})
+    # 5b. the agent behind an SMB pivot: its tasks wait, wrapped, in the first hop's queue; same rules, sizes of the wrapped jobs
+    pw = core.generate(ctx, "Gen_JobQueue.tla", "Gen_JobQueue_pivot.cfg", 40 if quick else 600, 8, ctx.seed, timeout=600)
+    ptrace, psumm = core.run_harness(ctx, hb, "jobqueue", pw, "pivot", timeout=1500, mode="pivot")
+    for inc in psumm["incidents"]:
+        core.report(ctx, {"check": "replay-pivot", "kind": inc["kind"], "site": inc["site"], "detail": inc["detail"][:200]}, inc)
+    pv = core.validate_traces(ctx, "Trace_JobQueue.tla", "Trace_JobQueue_pivot_strict.cfg", "Trace_JobQueue_pivot_mon.cfg", ptrace, "pivot")
+    for x in pv["violations"]:
+        ev = json.loads(x["lines"][x["event"] - 1]) if 0 < x["event"] <= len(x["lines"]) else {}
+        core.report(ctx, {"check": "Mon_JobQueue", "invariant": x["invariant"], "op": ev.get("ev", "?"), "pivot": True},
+                    {"events": [json.loads(l) for l in x["lines"]], "failing_event": x["event"]})
     # 6. schedules: concurrent producers against the agent's check-ins on the real queue (JobQueueConc.tla)
     core.design_check(ctx, "JobQueueConc.tla", "JobQueueConc.cfg", timeout=900)
     runs = [[{"op": "Run", "producers": p, "per": (1500 if quick else 6000)}] for p in ([2, 4, 8, 8] if quick else [2, 3, 4, 6, 8, 8, 12, 16] * 2)]
@@ -42,4 +52,4 @@ def run(ctx):
         exhaustive=False,
         assumptions=["refdemon (independent decoder written from the Demon sources) is the byte-level oracle",
                      "relay-style producers are represented by direct AddJobToQueue calls with socket-write shaped jobs"],
-        extra={"counters": summ["counters"], "events": summ["events"], "bounded_exhaustive_depth": 2, "concurrent_runs": csumm["counters"]})
+        extra={"counters": summ["counters"], "events": summ["events"], "bounded_exhaustive_depth": 2, "concurrent_runs": csumm["counters"], "pivot_walks": psumm["counters"]})
